@@ -32,7 +32,7 @@ const MAGIC_FREED: u64 = 0xDEAD_F4EE_DB10_C0FF;
 const HCANARY: u64 = 0xA5A5_A5A5_A5A5_A5A5;
 const F_CRATE: u64 = 1;
 
-pub const MAX_BLOCKS: usize = 512;
+pub const MAX_BLOCKS: usize = 4096;
 pub const MAX_EVENTS: usize = 256;
 pub const MAX_REGIONS: usize = 32;
 
@@ -156,6 +156,11 @@ unsafe impl GlobalAlloc for Oracle {
         let is_crate = s.armed && s.in_subject;
         if is_crate && size > s.oom_cap {
             s.oom_hit = true;
+            if sys::in_probe_child() {
+                // fork-isolated probe: report "allocation failure" straight away instead of
+                // going through handle_alloc_error (which symbolises a backtrace)
+                sys::exit_now(71);
+            }
             sys::write_stderr(b"ORACLE-OOM-MARKER\n");
             return core::ptr::null_mut();
         }
@@ -523,8 +528,17 @@ pub fn check_canaries() -> Option<String> {
 /// Install a silent panic hook and perform one warm-up panic so that the panic
 /// machinery's one-time allocations happen outside any attribution window.
 pub fn quiet_panics() {
-    std::panic::set_hook(Box::new(|_| {}));
+    // panics raised inside the subject window are expected (contract violations under test)
+    // and stay silent; a panic of the harness itself is reported
+    std::panic::set_hook(Box::new(|info| {
+        if !in_subject() {
+            let msg = format!("HARNESS PANIC: {}\n", info);
+            sys::write_stderr(msg.as_bytes());
+        }
+    }));
+    enter_subject();
     let _ = std::panic::catch_unwind(|| {
         panic!("warm-up {}", 1);
     });
+    exit_subject();
 }
